@@ -255,17 +255,19 @@ def findGroupOnDevice (st : St) (gbi : Nat) : String × St :=
       aGrp := modAt st.aGrp i (fun g => { g with needed := true }),
       bGrp := modAt st.bGrp gbi (fun g => { g with needed := false, onDev := name }) })
 
-def adaptGroups (st : St) (lb : List String) : List String × St :=
-  lb.foldl (fun (acc : List String × St) adr =>
-    let (res, st) := acc
-    match st.bGrpIdx adr with
-    | none => (res ++ [adr], st)
-    | some gbi =>
-      let gb := st.bGrp[gbi]?.getD default
-      if gb.onDev != "" then (res ++ [gb.onDev], st)
-      else
-        let (name, st) := findGroupOnDevice st gbi
-        if name != "" then (res ++ [name], st) else (res ++ [gb.newName], st)) ([], st)
+/-- One element of `adaptGroups`. -/
+def adaptStep (acc : List String × St) (adr : String) : List String × St :=
+  let (res, st) := acc
+  match st.bGrpIdx adr with
+  | none => (res ++ [adr], st)
+  | some gbi =>
+    let gb := st.bGrp[gbi]?.getD default
+    if gb.onDev != "" then (res ++ [gb.onDev], st)
+    else
+      let (name, st) := findGroupOnDevice st gbi
+      if name != "" then (res ++ [name], st) else (res ++ [gb.newName], st)
+
+def adaptGroups (st : St) (lb : List String) : List String × St := lb.foldl adaptStep ([], st)
 
 /-! ### `equalize` -/
 
@@ -295,7 +297,51 @@ def deletedCount (rs : List Range) : Nat :=
 /-- The heuristic of `hasEqualizedLists`: replace instead of changing incrementally. -/
 def replaceInstead (oldLen d : Nat) : Bool := 2 * d > (oldLen - d) + 1
 
-/-- `hasEqualizedLists` with `hasEqualizedGroups` inlined. -/
+/-- `hasEqualizedGroups(ga, gb)` for the groups with indices `gai`, `gbi`; `recur` is
+`hasEqualizedLists` (one level deeper). -/
+def eqGroups (recur : St → List String → List String → MPath → Bool × St) (st : St) (gai gbi : Nat) :
+    Bool × St :=
+  let ga := st.aGrp[gai]?.getD default
+  let gb := st.bGrp[gbi]?.getD default
+  if gb.onDev != "" then (gb.onDev == ga.g.name, st)
+  else if ga.needed then (false, st)
+  else
+    let (b, st) := recur st ga.g.members gb.g.members (.group ga.g.name)
+    if b then
+      (true, { st with
+        aGrp := modAt st.aGrp gai (fun g => { g with needed := true }),
+        bGrp := modAt st.bGrp gbi (fun g => { g with needed := false, onDev := ga.g.name }) })
+    else (false, st)
+
+/-- One pair of an equal range (`ok = false`: an earlier step has returned `false`). -/
+def pairStep (recur : St → List String → List String → MPath → Bool × St) (la lb : List String)
+    (r : Range) (acc : Bool × St × List String) (k : Nat) : Bool × St × List String :=
+  let (ok, st, ins) := acc
+  if !ok then acc
+  else
+    match st.aGrpIdx (la.getD (r.lowA + k) "") with
+    | none => acc
+    | some gai =>
+      match st.bGrpIdx (lb.getD (r.lowB + k) "") with
+      | none => (false, st, ins)
+      | some gbi =>
+        let (b, st) := eqGroups recur st gai gbi
+        (b, st, ins)
+
+/-- One range of the second loop of `hasEqualizedLists`. -/
+def rangeStep (recur : St → List String → List String → MPath → Bool × St) (la lb : List String)
+    (path : MPath) (acc : Bool × St × List String) (r : Range) : Bool × St × List String :=
+  let (ok, st, ins) := acc
+  if !ok then acc
+  else match r.kind with
+    | .del => (true, st.emitAll ((la.extract r.lowA r.highA).map path.delCmd), ins)
+    | .ins =>
+      -- names of groups as known or created on the device (repair 7da130b)
+      let (l, st) := adaptGroups st (lb.extract r.lowB r.highB)
+      (true, st, ins ++ l)
+    | .eq => (List.range (r.highA - r.lowA)).foldl (pairStep recur la lb r) (true, st, ins)
+
+/-- `hasEqualizedLists` (with `hasEqualizedGroups` as `eqGroups`). -/
 def hasEqLists (diff : Differ) : Nat → St → List String → List String → MPath → Bool × St
   | 0, st, _, _, _ => (false, st)
   | fuel + 1, st, la, lb, path =>
@@ -303,39 +349,7 @@ def hasEqLists (diff : Differ) : Nat → St → List String → List String → 
       (fun i j => memberEq st (la.getD i "") (lb.getD j ""))
     if replaceInstead la.length (deletedCount rs) then (false, st)
     else
-      let (ok, st, ins) := rs.foldl (fun (acc : Bool × St × List String) r =>
-        let (ok, st, ins) := acc
-        if !ok then acc
-        else match r.kind with
-          | .del => (true, st.emitAll ((la.extract r.lowA r.highA).map path.delCmd), ins)
-          | .ins =>
-            -- names of groups as known or created on the device (repair 7da130b)
-            let (l, st) := adaptGroups st (lb.extract r.lowB r.highB)
-            (true, st, ins ++ l)
-          | .eq =>
-            (List.range (r.highA - r.lowA)).foldl (fun (acc : Bool × St × List String) k =>
-              let (ok, st, ins) := acc
-              if !ok then acc
-              else
-                match st.aGrpIdx (la.getD (r.lowA + k) "") with
-                | none => acc
-                | some gai =>
-                  match st.bGrpIdx (lb.getD (r.lowB + k) "") with
-                  | none => (false, st, ins)
-                  | some gbi =>
-                    -- hasEqualizedGroups(ga, gb)
-                    let ga := st.aGrp[gai]?.getD default
-                    let gb := st.bGrp[gbi]?.getD default
-                    if gb.onDev != "" then (gb.onDev == ga.g.name, st, ins)
-                    else if ga.needed then (false, st, ins)
-                    else
-                      let (b, st) := hasEqLists diff fuel st ga.g.members gb.g.members (.group ga.g.name)
-                      if b then
-                        (true, { st with
-                          aGrp := modAt st.aGrp gai (fun g => { g with needed := true }),
-                          bGrp := modAt st.bGrp gbi (fun g =>
-                            { g with needed := false, onDev := ga.g.name }) }, ins)
-                      else (false, st, ins)) (true, st, ins)) (true, st, [])
+      let (ok, st, ins) := rs.foldl (rangeStep (hasEqLists diff fuel) la lb path) (true, st, [])
       if !ok then (false, st)
       else if ins.isEmpty then (true, st)
       else (true, st.emit (path.addCmd ins))
@@ -364,7 +378,7 @@ structure InsGroup where
 
 /-- First loop of `diffRules`: deletes and equalisations in range order; inserts are only
 collected (`delIdx` is the index after the rules deleted last). -/
-def rulePhase1 (diff : Differ) (fuel : Nat) (a b : Vsys) (aRules bRules : List Rule)
+def rulePhase1 (diff : Differ) (fuel : Nat) (_a _b : Vsys) (aRules bRules : List Rule)
     (rs : List Range) (st : St) : St × Nat × List InsGroup :=
   rs.foldl (fun (acc : St × Nat × List InsGroup) r =>
     let (st, delIdx, inserts) := acc
